@@ -92,9 +92,21 @@ def run_case(case):
 					problems.append(f'signature {i} differs')
 					break
 			if n:
-				for idx in (slice(None), slice(1, None, 2), slice(None, None, -1), [n - 1, 0], [rnd.randrange(n) for _ in range(3)]):
+				import itertools
+				ends = [None, 0, 1, 2, -1, -2, n - 1, n, n + 2, -n, -n - 1]
+				grid = [slice(a, b, c) for a, b, c in itertools.product(ends, ends, [None, 1, 2, 3, -1, -2, -3, n, -n])] if n <= 12 else \
+					[slice(rnd.choice(ends), rnd.choice(ends), rnd.choice([None, 1, 2, 3, -1, -2, -3, 7, -7])) for _ in range(60)]
+				masks = [np.array([rnd.random() < .5 for _ in range(n)])]
+				for idx in [slice(None), slice(1, None, 2), slice(None, None, -1), [n - 1, 0], [rnd.randrange(n) for _ in range(3)], [-1, 0, -n], np.array([0, n - 1, 0], dtype='i8')] + grid + masks:
+					if isinstance(idx, np.ndarray) and idx.dtype == bool:
+						sub = loaded[idx]
+						exp = [sg for sg, keep in zip(sigs, idx) if keep]
+						if len(sub) != len(exp) or not all(np.array_equal(a, b) for a, b in zip(sub, exp)):
+							problems.append('indexing with a boolean mask differs')
+							break
+						continue
 					sub = loaded[idx]
-					exp = sigs[idx] if isinstance(idx, slice) else [sigs[i] for i in idx]
+					exp = list(sigs)[idx] if isinstance(idx, slice) else [sigs[int(i)] for i in idx]
 					if len(sub) != len(exp) or not all(np.array_equal(a, b) and a.dtype == dt for a, b in zip(sub, exp)) or sub.kmerspec != ks:
 						problems.append(f'indexing with {idx} differs')
 						break
